@@ -3,6 +3,7 @@ import Stackage.Driver.Traverse
 import Stackage.Model.Alias
 import Stackage.Model.Options
 import Stackage.Model.Policy
+import Stackage.Driver.Equal
 
 namespace Stackage.Driver
 open Stackage
@@ -30,7 +31,10 @@ def runAlias (payload : String) : String × String × String :=
     let n := a.erase
     let cv (s : Stk) := ",".intercalate (s.xs.map (fun v => b01 (convertStack v).isSome ++ b01 (convertCondition v).isSome))
     -- model: each tree observed through the model; spec: the alias tree must look exactly like its native twin
-    (s!"A\{{obsAliasTree a}} N\{{obsAliasTree n}} Qokok V{cv a} D1",
+    -- IsEqual both ways, with the EqualityPolicies nested nodes carry (the receivers themselves carry none)
+    let q (x y : Stk) : String := match Val.IsEqual interpEq false (.stk .native x.cfg x.xs) (.stk .native y.cfg y.xs) with
+      | .ok none => "ok" | .ok (some _) => "ne" | .error _ => "PANIC"
+    (s!"A\{{obsAliasTree a}} N\{{obsAliasTree n}} Q{q a n}{q n a} V{cv a} D1",
      s!"A\{{obsAliasTree n}} N\{{obsAliasTree n}} Qokok V{cv n} D1", "")
   | _ => ("BADCASE", "BADCASE", "")
 
